@@ -251,6 +251,21 @@ class C02(RenderProp):
         return case.get("depth", 0) >= 3 and not case.get("_declined")
 
 
+class C03(RenderProp):
+    id = "C03"
+    n_quick = 1500
+    n_thorough = 25000
+    required_theorems = ["C03_freeze_captures", "C03_freeze_preserves", "C03_call_scope_and_frame", "C03_block_scope_and_frame", "C03_args_positional"]
+    rule = ("random programs of 1-3 (thorough: 1-4) mixin definitions (0-2 parameters; bodies printing parameters, page data and an invisible caller local; `block` placed 0, 1 or "
+            "2 times, bare / inside a tag / inside a conditional; recursive mixins on a decreasing counter placing `block` before or after the self-call and forwarding or replacing "
+            "it; calls of earlier mixins with the block forwarded once or twice) and calls from the main template (missing arguments, block bodies reading caller locals and loop "
+            "variables, nested calls inside blocks, calls inside each loops and tags), definitions before or after use. Oracle: reference semantics with lexical closures. "
+            "Non-trivial: always; distinct by case.")
+
+    def nontrivial(self, case, impl):
+        return not case.get("_declined")
+
+
 class C06(RenderProp):
     id = "C06"
     n_quick = 2500
@@ -559,4 +574,4 @@ class C13(Prop):
         return "%s/%s" % (case.get("from"), out_of((impl or {}).get("prod"))[0])
 
 
-PROPS = {p.id: p for p in [C01(), C02(), C04(), C05(), C06(), C07(), C11(), C12(), C13(), C17(), C18(), C20()]}
+PROPS = {p.id: p for p in [C01(), C02(), C03(), C04(), C05(), C06(), C07(), C11(), C12(), C13(), C17(), C18(), C20()]}
